@@ -607,20 +607,27 @@ pub fn run(opts: Opts) -> i32 {
     report.sample(json!({"pre_state": "RestartedNoSidecar", "ops": ["Message", "ReaderReplay"], "bound": bound}));
     report.sample(json!({"pre_state": "Warm", "ops": ["CursorRotate", "Message"], "bound": bound}));
     report.sample(json!({"pre_state": "Restarted", "ops": ["StubSessionRun", "Message"], "bound": bound}));
-    configs.par_iter().for_each(|(pre, ops, b, extra)| {
-        if report.over_cap() {
-            return;
-        }
-        run_config(&report, *pre, ops, *b, extra);
+    // the sequential parts (engine P, real runtime; hooks pass through for threads that are not
+    // actors) run beside the schedule exploration
+    std::thread::scope(|scope| {
+        let report = &report;
+        scope.spawn(move || {
+            // the counters through every branch of the provider tool loop
+            crate::c16::numbering_sweep(report);
+            // the counters through every way a provider response can end
+            crate::c07::termination_numbering_sweep(report);
+            // every way of starting runs on ONE session through the HTTP API (input once, twice in a
+            // row, twice after the first run ended, on two sessions)
+            session_inputs(report);
+            // every id-addressed writer route called with the id of a stream of every kind
+            cross_kind_ids(report);
+        });
+        configs.par_iter().for_each(|(pre, ops, b, extra)| {
+            if report.over_cap() {
+                return;
+            }
+            run_config(report, *pre, ops, *b, extra);
+        });
     });
-    // sequential part: the counters through every branch of the provider tool loop
-    crate::c16::numbering_sweep(&report);
-    // sequential part: the counters through every way a provider response can end
-    crate::c07::termination_numbering_sweep(&report);
-    // sequential part: every way of starting runs on ONE session through the HTTP API (input once,
-    // twice in a row, twice after the first run ended, on two sessions)
-    session_inputs(&report);
-    // sequential part: every id-addressed writer route called with the id of a stream of every kind
-    cross_kind_ids(&report);
     report.finish()
 }
